@@ -973,6 +973,13 @@ class Noise(EnvironmentFilter):
                 if is_callable: noisy_rewards = DiscreteReward(noisy_actions, noisy_rewards)
                 new['rewards'] = noisy_rewards
 
+            if 'actions' in new:
+                #what else refers to the offered actions follows them to their noisy form
+                if callable(new.get('feedbacks')):
+                    new['feedbacks'] = DiscreteReward(noisy_actions, list(map(new['feedbacks'],actions)))
+                if 'action' in new and new['action'] in actions:
+                    new['action'] = noisy_actions[actions.index(new['action'])]
+
             yield new
 
     def _noises(self, value:Union[None,float,str,Mapping,Sequence], rng: CobaRandom, noiser: Callable[[float,CobaRandom], float]):
